@@ -255,6 +255,14 @@ fn stmt_of_expr(e: &syn::Expr) -> Option<String> {
     syn::Expr::Binary(b) => match binop(&b.op) {
       Some((op, true)) => match place(&b.left) {
         Some(p) if !p.contains('.') => Some(format!("SOpAssign {} {} ({})", op, q(&p), expr(&b.right))),
+        // `self.f op= rhs`: read the field, compute, assign the field
+        Some(p) if p.starts_with("self.") && p.matches('.').count() == 1 => Some(format!(
+          "SAssign {} (EBin {} ({}) ({}))",
+          q(&p),
+          op,
+          expr(&b.left),
+          expr(&b.right)
+        )),
         _ => match field_place(&b.left) {
           Some((base, f)) => Some(format!(
             "SExpr (ECall {} [{}; {}])",
@@ -404,6 +412,18 @@ fn expr(e: &syn::Expr) -> String {
       format!("EMatch ({}) {}", expr(&m.expr), list(&arms))
     }
     syn::Expr::Call(c) => {
+      // `(self.f)(args)`: a closure stored in a field of self is called
+      if let syn::Expr::Paren(pe) = &*c.func {
+        if let syn::Expr::Field(f) = &*pe.expr {
+          if let (syn::Member::Named(n), syn::Expr::Path(bp)) = (&f.member, &*f.base) {
+            if bp.path.is_ident("self") {
+              let mut args = vec!["EVar \"self\"".to_string()];
+              args.extend(c.args.iter().map(expr));
+              return format!("ECall {} {}", q(&format!("call_field:{}", n)), list(&args));
+            }
+          }
+        }
+      }
       let name = match &*c.func {
         syn::Expr::Path(p) => path_name(&p.path),
         _ => return foreign(e),
